@@ -54,6 +54,9 @@ var c05QueryNames = []string{
 	"facebook.com", "www.google.com", "duckduckgo.com", "kid.verif.test",
 }
 
+// c05UntermLists counts lists served without a final line end.
+var c05UntermLists atomic.Int64
+
 func c05Families(ls *sysListServer, upPort int) []c05Family {
 	return []c05Family{
 		{"clients", func(in *sysInst, rng *rand.Rand, i int) (int, []string) {
@@ -152,7 +155,25 @@ func c05Families(ls *sysListServer, upPort int) []c05Family {
 			for k := 0; k < 50+i%100; k++ {
 				fmt.Fprintf(&sb, "||l%d-%d.verif.test^\n", i, k)
 			}
-			ls.Set(path, []byte(sb.String()))
+			body := []byte(sb.String())
+			if i%3 == 1 {
+				// As list servers send them too: the last line without a line
+				// end, and a size that is a whole number of the usual buffer
+				// sizes (or one byte off).
+				size := []int{1024, 2048, 4096, 1023, 1025, 512, 8192}[(i/3)%7]
+				for len(body) < size+40 {
+					body = append(body, []byte(fmt.Sprintf("||pad%d-%d.verif.test^\n", i, len(body)))...)
+				}
+				body = body[:size]
+				for k := len(body) - 1; k > len(body)-30; k-- {
+					// (No line end near the end; keep the text printable.)
+					if body[k] == '\n' {
+						body[k] = 'x'
+					}
+				}
+				c05UntermLists.Add(1)
+			}
+			ls.Set(path, body)
 			wl := i%4 == 3
 			n := 0
 			if i%5 == 2 {
@@ -313,7 +334,7 @@ func c05Families(ls *sysListServer, upPort int) []c05Family {
 				f = append(f, s)
 			}
 			n := 2
-			if i%6 == 5 {
+			if i%2 == 1 {
 				if s := c05Call(in, "POST", "/control/stats_reset", nil); s != "" {
 					f = append(f, s)
 				}
@@ -1027,6 +1048,31 @@ func c05Round(rep *verifkit.Report, round int, loadDur time.Duration) {
 			}
 		}(fi)
 	}
+	// Dashboards: pages of the web interface poll the read-only endpoints all
+	// the time; GET requests are not serialised with the admin operations.
+	var polls atomic.Int64
+	for pi := 0; pi < 7; pi++ {
+		wg.Add(1)
+		go func(pi int) {
+			defer wg.Done()
+			paths := []string{"/control/stats", "/control/querylog?limit=20", "/control/clients", "/control/filtering/status", "/control/stats", "/control/dhcp/status", "/control/status"}
+			if pi >= 4 {
+				// (The statistics page alone, without a pause.)
+				paths = []string{"/control/stats"}
+			}
+			for n := pi; !stop.Load(); n++ {
+				_, _, _ = in.APITimeout("GET", paths[n%len(paths)], nil, 20*time.Second)
+				polls.Add(1)
+				if pi < 4 {
+					time.Sleep(time.Duration(1+n%5) * time.Millisecond)
+				}
+			}
+		}(pi)
+	}
+	defer func() {
+		rep.EventN("dashboard_polls_during_the_workload", int(polls.Load()))
+		rep.EventN("lists_served_without_final_line_end_at_buffer_sized_lengths", int(c05UntermLists.Load()))
+	}()
 	nClients := 12
 	var phase atomic.Int64 // 0 steady, 1 burst
 	for ci := 0; ci < nClients; ci++ {
